@@ -3,7 +3,7 @@
    The model is of OffsetCommit WITH fixes/C13-commit-under-lock.patch (check and store
    write in one critical section, so every operation is atomic and schedules are
    operation sequences). *)
-From KS Require Import lib.Base model.Coordinator proofs.CoordinatorBase proofs.CoordinatorProofs.
+From KS Require Import lib.Base model.Coordinator model.CoordinatorFaults proofs.CoordinatorBase proofs.CoordinatorProofs proofs.CoordinatorFaults.
 Open Scope Z_scope.
 
 (* (1) in ANY state: a sync, heartbeat or offset commit whose (member, generation) is not
@@ -42,6 +42,28 @@ Proof.
   destruct (join_reply E (run E h) _ _ _ _ _ _ _ _ _ _ _ _ (run_inv E h) H) as [g' [H1 [_ [H2 _]]]]. eauto.
 Qed.
 Print Assumptions C13_join_reports_generation.
+
+(* ---- under arbitrary transient store failures (model/CoordinatorFaults.v) ---- *)
+(* (1f) fencing does not depend on the store working: in ANY state and for ANY fault of the
+       request, a sync / heartbeat / commit that is not from (a member, the generation) of
+       the group the request sees gets an error (or no reply) and changes no offset *)
+Theorem C13_fenced_under_store_faults : forall E s o f mid gen now,
+  (o = Sync mid gen now \/ o = Heartbeat mid gen now \/ exists t p off, o = Commit mid gen t p off now) ->
+  ~ currentf s now f mid gen ->
+  reply_err_opt (snd (stepf E s o f)) <> NONE /\ s_off (fst (stepf E s o f)) = s_off s.
+Proof. exact c13f_fenced. Qed.
+Print Assumptions C13_fenced_under_store_faults.
+
+(* (3f) whatever fails, the generation of the group a coordinator holds in memory never
+       decreases. Across a FAILOVER the generation (and the member set) can only be
+       guaranteed when the last whole-group write succeeded ([synced]; then
+       C13_generation_monotone applies): after a failed write the store holds an older
+       image, and a coordinator that takes over can only know that image -- no
+       coordinator-side code can fence what the store never learned. *)
+Theorem C13_generation_monotone_in_memory_under_store_faults : forall E h o f g g',
+  s_mem (runf E h) = Some g -> s_mem (fst (stepf E (runf E h) o f)) = Some g' -> g_gen g <= g_gen g'.
+Proof. intros E h o f g g'. apply c13f_generation_monotone_in_memory. apply runf_inv2. Qed.
+Print Assumptions C13_generation_monotone_in_memory_under_store_faults.
 
 (* non-vacuity: an expired member's commit / heartbeat / sync with its old generation is
    rejected and the offset stays; the surviving member's commit lands *)
